@@ -283,6 +283,11 @@ pub struct Knobs {
 	/// final status of a challenge validation: "valid" (default) | "invalid"
 	#[serde(default, skip_serializing_if = "Vec::is_empty")]
 	pub validation: Vec<String>,
+	/// status shown for the i-th challenge created (cycled; "" = pending) while its authorization is
+	/// pending: "processing" (the CA is still busy with an earlier response) or "valid" (the window
+	/// in which the challenge is already valid and the authorization not yet)
+	#[serde(default, skip_serializing_if = "Vec::is_empty")]
+	pub chall_status: Vec<String>,
 	/// line ending of served PEM ("\n")
 	#[serde(default, skip_serializing_if = "is_false")]
 	pub meta: bool,
